@@ -59,9 +59,9 @@ ASSUMPTIONS = [
 MIN_DISTINCT = {'quick': 300, 'thorough': 4000}
 CASE_TIMEOUT = 180
 
-N_MC = {'quick': 520, 'thorough': 9000}
-N_INT = {'quick': 220, 'thorough': 3500}
-N_DER = {'quick': 300, 'thorough': 5000}
+N_MC = {'quick': 520, 'thorough': 6000}
+N_INT = {'quick': 220, 'thorough': 2400}
+N_DER = {'quick': 300, 'thorough': 3400}
 
 INT_RTOL, INT_ATOL = 1e-9, 1e-11
 
@@ -1159,6 +1159,25 @@ def run_case(case):
         'reserved': _run_reserved, 'sametype': _run_sametype, 'derive_linutil': _run_derive_linutil,
     }[kind](case, rec)
     return rec.out()
+
+
+def extra(seed, tier, workdir):
+    """thorough: a slice of the same workload on the ASan/UBSan build of the pinned engine (the draw table,
+    the draw / random-variable / literal indices written by the Python side are what the engine dereferences).
+    Only when that build is already there (made by setup.sh / C01); its absence is reported in the counters,
+    the behavioural monitors above decide the property."""
+    from . import _sanitizer
+
+    if tier != 'thorough':
+        return []
+    if not _sanitizer.available('asan'):
+        return [{'n': 0, 'keys': [], 'viol': [], 'cov': {'asan_build_not_available_subcheck_skipped': 1}, 'samples': [],
+                 'inconclusive': []}]
+    cs = [{'kind': 'mc', 'seed': seed + 1000, 'i': i, 'tier': 'quick'} for i in range(260)]
+    cs += [{'kind': 'int', 'seed': seed + 1000, 'i': i, 'tier': 'quick'} for i in range(60)]
+    cs += [{'kind': 'der', 'seed': seed + 1000, 'i': i, 'tier': 'quick'} for i in range(80)]
+    cs += [{'kind': 'sametype', 'seed': 0, 'i': 0, 'tier': 'quick'}]
+    return _sanitizer.run_under_asan('C10', 'biomon.checks.c10', cs, workdir, tier)
 
 
 def finalize(cov, tier):
